@@ -355,8 +355,29 @@ def write_project(ex, case):
         rows.append("%-9s %-3s %s %s %s %d" % (fid, code, sw, fmt_date(har, f), "080 050" if k == 0 else "000 000", case["autorg"][k]))
     cl = layout(case, "crop", rows)
     case["crop_layout"] = cl
-    open(os.path.join(dst, "crop_%s.txt" % name), "w").write(
-        "Field_ID    crp  sowing harvst Rex yld autorg variety comment\n" + "".join(l + "\n" for _, l in cl) + "end\n")
+    # the rotation file in the classic column format or as csv table (CropFileFormat on the batch line), csv columns in the shipped
+    # order (header names of the shipped example) or permuted with the names the reader maps
+    case["crop_fmt"] = arnd.choice(["txt", "txt", "csv", "csvperm"])
+    for ext in ("txt", "csv"):
+        pth = os.path.join(dst, "crop_%s.%s" % (name, ext))
+        if os.path.exists(pth):
+            os.remove(pth)
+    if case["crop_fmt"] == "txt":
+        open(os.path.join(dst, "crop_%s.txt" % name), "w").write(
+            "Field_ID    crp  sowing harvst Rex yld autorg variety comment\n" + "".join(l + "\n" for _, l in cl) + "end\n")
+    else:
+        cols = ["Field_ID", "crop", "sowing", "harvest", "Rex", "yld", "autorg", "variety"]
+        if case["crop_fmt"] == "csvperm":
+            perm = list(range(8)); arnd.shuffle(perm)
+            hdr = ",".join(cols[i] for i in perm)
+        else:
+            perm = list(range(8))
+            hdr = "Field_ID,crp,sowing,harvst,Rex,yld,autorg,variety,comment"
+        def csvline(text):
+            t = text.split()
+            t = (t + [""] * 8)[:8]
+            return ",".join(t[i] for i in perm)
+        open(os.path.join(dst, "crop_%s.csv" % name), "w").write(hdr + "\n" + "".join(csvline(l) + "\n" for _, l in cl) + "end\n")
     annual = "3110" if f < 2 else "1031"
     # the global fertilisation factor (percent) comes from the batch line or from the project's config.yml
     cfgp = os.path.join(dst, "config.yml")
@@ -365,9 +386,9 @@ def write_project(ex, case):
     assert cfg2 != cfg or "Fertilization: 100" in cfg
     open(cfgp, "w").write(cfg2)
     return ("project=%s WeatherFolder=historical soilId=%s fcode=%s plotNr=10001 Altitude=73 Latitude=52.6 poligonID=1 "
-            "CropFileFormat=txt AutoIrrigation=0 AutoFertilization=0 AutoSowingHarvest=0 AutoHarvest=0 ManagementEvents=1 "
+            "CropFileFormat=%s AutoIrrigation=0 AutoFertilization=0 AutoSowingHarvest=0 AutoHarvest=0 ManagementEvents=1 "
             "OutputIntervall=0 Dateformat=%d StartYear=%d EndDate=%s AnnualOutputDate=%s %sresultfolder=%s"
-            % (name, case["soil"], case["fcode"], f, case["begin"].year, fmt_date(case["end"], f), annual,
+            % (name, case["soil"], case["fcode"], "txt" if case["crop_fmt"] == "txt" else "csv", f, case["begin"].year, fmt_date(case["end"], f), annual,
                ("Fertilization=%d " % case["fertilization"]) if case["fert_from"] == "line" else "", os.path.join(ex, "R", name)))
 
 
@@ -507,7 +528,7 @@ def correspond(ctx):
             c.mismatches.append({"kind": "fertiliser-sums-between-days", "case": cs["idx"], "changes": cs["run"]["overnight_changes"],
                                  "first": cs["run"]["overnight_first"]})
         good.append(cs)
-        c.bump(FMTS[cs["fmt"]]); c.bump("fertilisation %d %% from %s" % (cs["fertilization"], cs["fert_from"]))
+        c.bump(FMTS[cs["fmt"]]); c.bump("fertilisation %d %% from %s" % (cs["fertilization"], cs["fert_from"])); c.bump("rotation file " + cs["crop_fmt"])
         c.bump("fert-events", len(cs["fert"])); c.bump("till-events", len(cs["till"])); c.bump("irr-events", len(cs["irr"]))
         c.bump("fired", len(cs["ev"]))
     tab = "Definition tab : list (frow float) := %s." % _table_coq(table)
@@ -569,6 +590,18 @@ def correspond(ctx):
         c.dist["crop-skip-replays"] = len(g["skip"])
         c.dist["organic-split-records"] = len(g["odueng"])
         c.cases += oc.cases
+    # fixed sowing dates with automatic harvest (AutoHarvest on the batch line): harvest decisions and the sowing/harvest sequence
+    hrc, hcases, herr, _ = c16.hs_run(ctx)
+    if hrc != 0:
+        c.mismatches.append({"kind": "harness-crash", "cmd": "c16 (fixed sowing + automatic harvest)", "stderr": herr[-1500:]})
+    else:
+        hc = Corr()
+        hgroups = c16.build_records(hcases, hc, None)
+        c16.eval_groups(ctx, hc, hgroups, "C10hs", only=("hdec", "hdec2", "hcur", "rot"))
+        c.mismatches += hc.mismatches
+        c.dist["fixed-sowing+automatic-harvest runs"] = len([x for x in hcases if x.get("final")])
+        c.dist["second-pass sowing offsets"] = sorted(x["second_pass"]["offset"] for x in hcases if x.get("second_pass"))
+        c.cases += hc.cases
     c.cases += len(good) + len(drecs)
     c.nontrivial = len(set((cs["fmt"], len(cs["fert"]), len(cs["till"]), len(cs["irr"]), cs["special"]) for cs in good)) + len(set(r["name"] for r in drecs))
     c.samples = ["c10_%d %s %s..%s fert=%s" % (cs["idx"], FMTS[cs["fmt"]], cs["begin"], cs["end"], [(str(numday(d)), a, n) for d, a, n in cs["fert"][:4]])
@@ -739,6 +772,30 @@ def oracle(ctx, search):
         ofails, ochecked = c16.org_oracle(ocases, table)
         fails += ofails
         ctx.extra["oracle_organic_checks"] = ochecked
+    hrc, hcases, herr, _ = c16.hs_run(ctx)
+    if hrc == 0:
+        # clause "each sowing the input files schedule is carried out not before its scheduled date and at most one day after it",
+        # with fixed sowing dates and automatic harvest: unless the date had already passed when the previous harvest was decided
+        for cs in hcases:
+            if c16.rejected(cs) or cs["run"] is None or not cs["run"]["success"] or cs["log"] is None:
+                if not c16.rejected(cs):
+                    fails.append(Fail(key="run:%s" % cs["name"], what="the run failed: %s" % ((cs["run"] or {}).get("err")), case=cs["name"]))
+                continue
+            sowlog = [z for (z, k, p) in cs["log"] if k == "sowing"]
+            harlog = [z for (z, k, p) in cs["log"] if k == "harvest"]
+            for k in range(1, len(cs["crops"])):
+                code, s_, h_, w_ = cs["crops"][k]
+                prev_h = cs["B"] if k == 1 else (harlog[k - 2] if k - 2 < len(harlog) else None)
+                if prev_h is None or daynum(s_) > cs["E"] or daynum(s_) <= prev_h:
+                    continue          # previous crop not harvested in the run / date after the end / date overtaken by the harvest
+                checked += 1
+                sz = sowlog[k - 1] if k - 1 < len(sowlog) else None
+                if sz is None or not (daynum(s_) <= sz <= daynum(s_) + 1):
+                    fails.append(Fail(key="sowing-date:%s:%s" % (c16.sws_of(cs), cs["name"]),
+                                      what="entry %d (%s): the rotation file schedules sowing on %s (previous harvest %s), carried out on %s"
+                                      % (k, code, s_, numday(prev_h), sz and numday(sz)), case=cs["name"], switches=c16.sws_of(cs),
+                                      crops=[(a, str(b), str(c_)) for a, b, c_, _ in cs["crops"]], second_pass=cs.get("second_pass"),
+                                      log=[(str(numday(z)), k_, p) for (z, k_, p) in cs["log"] if k_ in ("sowing", "harvest")]))
     ctx.extra["oracle_events_checked"] = checked
     ctx.extra["oracle_runs"] = len(cases)
     return fails
